@@ -1114,7 +1114,7 @@ fn main() {
     let args = Args::parse();
     quiet_panics();
     let mut s = Session::new(&args.out);
-    s.rule = "seeded histories of put / put_with_ttl / get / contains / remove / clear / size / stats (+ reopen for the disk cache) over all five eviction policies, max_entries 1..30, max_memory_bytes none/1/2/10/40/100/300/1000, value sizes 0 .. above the byte limit, key populations above capacity in which (from two keys on) at least two keys belong to one near-collision family (different keys that differ only in a separator / field boundary, punctuation, blanks, letter case, a Unicode look-alike or normalisation form, a path separator, or far into a 32..251-byte name; memory cache also 252..5000-byte names), disk layouts flat and hashed sub-directories (1..3 levels), directed walks over every whole family on the memory cache and every disk layout, TTL classes long (1 h) / short (0 ns–1 ms followed by a real sleep > 3×TTL); a quarter of the memory histories on MemoryCache::new_with_cleanup with ticks of the background task (`cleanup`); stats() compared in five figures (entries, bytes, get / hit / miss counts); plus the grid of MemoryCacheConfig / DiskCacheConfig::validate inputs; evaluations = histories; non-trivial = the history reached an eviction, an expiry sweep, a short TTL, a reopen or a cleanup tick; distinct = canonical request text of the whole history".into();
+    s.rule = "seeded histories of put / put_with_ttl / get / contains / remove / clear / size / stats (+ reopen for the disk cache) over all five eviction policies, max_entries 1..30, max_memory_bytes none/1/2/10/40/100/300/1000, value sizes 0 .. above the byte limit, key populations above capacity in which (from two keys on) at least two keys belong to one near-collision family (different keys that differ only in a separator / field boundary, punctuation, blanks, letter case, a Unicode look-alike or normalisation form, a path separator, or far into a 32..251-byte name; names of 252..5000 bytes are stored by the memory cache and refused by the file system under the disk cache — listed as refuse= on the begin line, a put of them must fail and store nothing), disk layouts flat and hashed sub-directories (1..3 levels), directed walks over every whole family on the memory cache and every disk layout, TTL classes long (1 h) / short (0 ns–1 ms followed by a real sleep > 3×TTL); a quarter of the memory histories on MemoryCache::new_with_cleanup with ticks of the background task (`cleanup`); stats() compared in five figures (entries, bytes, get / hit / miss counts); plus the grid of MemoryCacheConfig / DiskCacheConfig::validate inputs; evaluations = histories; non-trivial = the history reached an eviction, an expiry sweep, a short TTL, a reopen or a cleanup tick; distinct = canonical request text of the whole history".into();
     let mut rng = Rng::new(args.seed);
     check_universe();
 
